@@ -42,15 +42,21 @@ pub enum Suffix {
     Last8,
     LastRecord,
     Separator,
+    /// a line of ASCII digits with one two-byte UTF-8 character that starts at byte 7 / byte 8
+    /// (text formats slice lines at fixed byte offsets)
+    Utf8At7,
+    Utf8At8,
 }
 
-pub const SUFFIXES: [Suffix; 6] = [
+pub const SUFFIXES: [Suffix; 8] = [
     Suffix::Zero1,
     Suffix::Zero8,
     Suffix::Ff8,
     Suffix::Last8,
     Suffix::LastRecord,
     Suffix::Separator,
+    Suffix::Utf8At7,
+    Suffix::Utf8At8,
 ];
 
 impl Suffix {
@@ -62,6 +68,8 @@ impl Suffix {
             Suffix::Last8 => "last8",
             Suffix::LastRecord => "last-record",
             Suffix::Separator => "separator",
+            Suffix::Utf8At7 => "utf8-at-7",
+            Suffix::Utf8At8 => "utf8-at-8",
         }
     }
 
@@ -259,6 +267,17 @@ pub fn enumerate(plan: &Plan) -> (Vec<Damage>, u64) {
     for s in SUFFIXES {
         out.push(Damage::Append { suffix: s });
     }
+    // two adjacent bytes become one valid two-byte UTF-8 character (0xC3 0xA9), at every offset:
+    // a single high byte is invalid UTF-8 and is refused wholesale by text readers, a well-formed
+    // multi-byte character is not, and it shifts every later char boundary
+    for off in 0..p.len().saturating_sub(1) {
+        if inside(off) && inside(off + 1) && (p[off], p[off + 1]) != (0xc3, 0xa9) {
+            out.push(Damage::Pair {
+                a: (off, 0xc3),
+                b: (off + 1, 0xa9),
+            });
+        }
+    }
     if plan.pairs {
         let offs: Vec<usize> = (0..p.len())
             .filter(|o| in_ranges(plan.unchecksummed, *o))
@@ -297,6 +316,8 @@ pub fn apply(pristine: &[u8], d: &Damage, last_record: &[u8], separator: &[u8]) 
             }
             Suffix::LastRecord => v.extend_from_slice(last_record),
             Suffix::Separator => v.extend_from_slice(separator),
+            Suffix::Utf8At7 => v.extend_from_slice("0000000\u{e9}000\n".as_bytes()),
+            Suffix::Utf8At8 => v.extend_from_slice("00000000\u{e9}00\n".as_bytes()),
         },
         Damage::Pair { a, b } => {
             v[a.0] = a.1;
